@@ -315,6 +315,7 @@ type Run struct {
 
 	mu          sync.Mutex
 	known       map[string]knownFinding
+	regress     []knownFinding
 	knownSeen   map[string]int
 	knownMsg    map[string]string
 	evals       int64
@@ -378,6 +379,9 @@ func NewRun(t *testing.T, prop string) *Run {
 			t.Fatalf("known_findings.json: %v", err)
 		}
 		for _, k := range kf.Findings {
+			if k.Property == prop && k.Status == "fixed" && k.Replay != "" {
+				r.regress = append(r.regress, k)
+			}
 			if k.Property == prop && k.Status == "known" {
 				if k.SignatureRegex != "" {
 					k.re = regexp.MustCompile(k.SignatureRegex)
@@ -749,6 +753,21 @@ func (r *Run) ReplayFile(parts map[string]func(*Case)) {
 func (r *Run) CheckKnown(parts map[string]func(*Case)) {
 	if r.Replay != "" || r.Shard != 0 {
 		return
+	}
+	// saved inputs of repaired defects are ordinary cases: they are replayed on every run and report the violation
+	// again if it ever returns
+	for _, k := range r.regress {
+		b, err := os.ReadFile(filepath.Join(r.verifDir, k.Replay))
+		if err != nil {
+			r.T.Fatalf("regression input %s: %v", k.Replay, err)
+		}
+		var f failure
+		if err := json.Unmarshal(b, &f); err != nil {
+			r.T.Fatalf("regression input %s: %v", k.Replay, err)
+		}
+		if prop, ok := parts[f.Part]; ok {
+			r.Direct(f.Part, f.Draws, prop)
+		}
 	}
 	sigs := make([]string, 0, len(r.known))
 	for s := range r.known {
